@@ -37,14 +37,17 @@ fn through_the_client(ctx: &mut Ctx) {
                     for answer in answers {
                         for present in [false, true] {
                             let kind = if present && !is_reg { Kind::RefFull } else { [Kind::RefFull, Kind::Map][ctx.rng.below(2) as usize] };
-                            let w = World { kind, counter_on: true, id_len: 16, hm: Hm::None, preload: vec![] };
+                            // registrations name one and the same credential in their exclude list; it is held (preloaded) or not
+                            let held_id = vec![0xC4, 0xC4, 1, 2, 3, 4, 5, 6];
+                            let preload = if is_reg && present { vec![make_passkey(ctx, held_id.clone(), "example.com", Some(vec![1]), None, None)] } else { vec![] };
+                            let w = World { kind, counter_on: true, id_len: 16, hm: Hm::None, preload };
                             let uvs = UvState { presence_enabled, verification, answer };
                             let mut steps = vec![];
-                            if present { steps.push(cstep(COp::Reg(simple_reg(ctx, site, Some("example.com"))))); }
+                            if present && !is_reg { steps.push(cstep(COp::Reg(simple_reg(ctx, site, Some("example.com"))))); }
                             if is_reg {
                                 let mut r = simple_reg(ctx, site, Some("example.com"));
                                 r.sel = Some(Sel { rk: None, rrk: false, uv: uvr });
-                                if present { r.exclude = None; }
+                                r.exclude = Some(vec![held_id.clone()]);
                                 steps.push(CStep { op: COp::Reg(r), uv: uvs, faults: vec![] });
                             } else {
                                 let mut a = simple_auth(ctx, site, Some("example.com")); a.uv = uvr;
@@ -93,7 +96,7 @@ pub fn gen(ctx: &mut Ctx) {
                                     g.allow = Some(vec![cred_id.clone()]);
                                     Op::Get(g)
                                 };
-                                run_case_tw(ctx, "C04", &w, &[Step { op, uv: uvs, faults: vec![], cancel_after: None, hold_polls: 0 }], &format!("r{}", row));
+                                run_case_tw(ctx, "C04", &w, &[Step { op, uv: uvs, faults: vec![], cancel_after: None, hold_polls: 0, hold_shared: false }], &format!("r{}", row));
                                 ctx.stat("c04.rows");
                             }
                         }
